@@ -707,8 +707,11 @@ func (f *Frame) evalCall(x ECall, c *evalCtx) Val {
 			return v
 		}
 		// bytes -> string, as an uninterpreted function of (row, off, len)
-		sl := v.Go.Underlying().(*types.Slice)
-		h := un.H(c.cur, un.elemHeap(sl.Elem()), ArrSort(SInt, ArrSort(SInt, SInt)))
+		var elem types.Type = types.Typ[types.Uint8] // a ghost variable of sort Slice read as a string: a byte slice
+		if v.Go != nil {
+			elem = v.Go.Underlying().(*types.Slice).Elem()
+		}
+		h := un.H(c.cur, un.elemHeap(elem), ArrSort(SInt, ArrSort(SInt, SInt)))
 		un.eng.needStrOf = true
 		return Val{T: mk(SStr, "str_of", Select(h, SBase(v.T)), SOff(v.T), SLen(v.T)), Go: types.Typ[types.String]}
 	case "strcmp":
